@@ -12,6 +12,7 @@ import ast
 from typing import Dict, List, Optional, Set, Tuple
 
 from .. import astutil as A
+from .. import roles
 from .. import guards as G
 from ..model import AnalysisError, dotted, src
 
@@ -374,6 +375,7 @@ def check_accounting(ctx, ex):
 
 def check_busy(ctx, ex, rule="C12.B"):
     repo = ctx.repo
+    normalise_executor(ctx, ex)
     m = ex.module
     fn = ex.methods.get("_handle_epr_ok_k_response")
     hv = ex.methods.get("_has_virtual_address")
@@ -436,8 +438,50 @@ def check_waits(ctx, ex):
                   sample={"handler": h, "quantifier": got})
 
 
+EXECUTOR_ROLES = {
+    "_extract_epr_info": [
+        "$creator_node_id=get_creator_node_id(self.node_id,response)",
+        "$is_creator=True",
+        "$requests=self._epr_create_requests",
+        "$purpose_id=response.purpose_id",
+        "$remote_node_id=response.remote_node_id",
+        "$epr_cmd_data=$requests[$request_key][0]",
+        "$pair_index=$epr_cmd_data.tot_pairs-$epr_cmd_data.pairs_left",
+    ],
+    "_handle_pending_epr_responses": [
+        "for ($i,$response) in enumerate(self._pending_epr_responses)",
+        "$info=self._extract_epr_info(response=$response)",
+        "($epr_cmd_data,$pair_index,$is_creator,$request_key)=$info",
+        "$handled=False",
+    ],
+    "_handle_epr_ok_k_response": [
+        "$subroutine_id=epr_cmd_data.subroutine_id",
+        "$app_id=self._get_app_id(subroutine_id=$subroutine_id)",
+        "$virtual_address=self._get_virtual_address_from_epr_data(...)",
+        "$physical_address=response.logical_qubit_id",
+    ],
+    "_has_virtual_address": ["$unit_module=self._qubit_unit_modules.get(app_id)"],
+    "_do_recv_epr": ["$app_id=self._get_app_id(...)", "$num_pairs=self._get_num_pairs_from_array(...)", "$purpose_id=self._get_purpose_id(...)"],
+    "_do_create_epr": ["$create_request=self._get_create_request(...)", "$app_id=self._get_app_id(...)"],
+    "_get_create_request": ["$purpose_id=self._get_purpose_id(...)", "$app_id=self._get_app_id(...)", "$array_args=self._app_arrays[$app_id][arg_array_address,:]", "$args=[remote_node_id,$purpose_id]+$array_args"],
+    "_get_virtual_address_from_epr_data": ["$q_array_address=epr_cmd_data.q_array_address", "$array_entry=parse_address(...)", "$virtual_address=self._get_array_entry(...)"],
+}
+
+
+def normalise_executor(ctx, ex):
+    """name the locals of the executor's EPR functions by role (see nqsa/roles.py); done once per run"""
+    if getattr(ctx, "_c12_roles_done", False):
+        return
+    ctx._c12_roles_done = True
+    for name, pats in EXECUTOR_ROLES.items():
+        fn = ex.methods.get(name)
+        if fn is not None:
+            roles.normalise(ctx, fn, pats, f"Executor.{name}")
+
+
 def run(ctx):
     ex = ctx.repo.get_class(EXE, "Executor")
+    normalise_executor(ctx, ex)
     check_queues(ctx, ex)
     check_keys(ctx, ex)
     check_accounting(ctx, ex)
